@@ -41,7 +41,8 @@ CLAIMED["C03"] = dict(
     text="Proof (Lean 4), for every machine set, fractions, oracle, every prior history with arbitrary (also backwards) clock values and every single-event call: "
          "a returned BlockOutgoing for machine m implies replace-while-active, or blocked time (recomputed from the BlockingBegin/End reports and timestamps alone, "
          "ongoing block counted to now, negative spans as 0) below allowed_blocked_microsec, or the blocked share below both the machine's and the framework's fraction. "
-         "Rests on the proved accounting refinement. The same decidable predicate runs as a monitor on the implementation's traces under a virtual clock.",
+         "Rests on the proved accounting refinement. The share is the double the code computes; C03_share_exact / C03_share_band relate it to the exact rational share (below in doubles implies exact share < limit (1 + 2^-49); the two tests agree outside the band limit (1 +- 2^-50)) for durations below 2^53 s. "
+         "The same decidable predicate runs as a monitor on the implementation's traces under a virtual clock.",
     ref="5 (C03)",
     technique="Lean 4: gate invariant over primitive steps + accounting refinement theorem; differential correspondence under a virtual clock; spec monitor on implementation traces",
 )
